@@ -46,9 +46,10 @@ def is_collection(t: Term) -> bool:
 class Enc:
     """Encoder of executor terms (evaluated for truthiness) into formulas; `canon` maps a term to a canonical key or None."""
 
-    def __init__(self, canon=None, union_params: set | None = None) -> None:
+    def __init__(self, canon=None, union_params: set | None = None, objects: set | None = None) -> None:
         self.canon = canon or (lambda t: None)
         self.union_params = union_params or set()
+        self.objects = objects or set()  # terms that are None or an instance of a class without __bool__ / __len__: truthy iff not None
 
     def key(self, t: Term) -> str:
         c = self.canon(t)
@@ -70,6 +71,8 @@ class Enc:
 
     def truth(self, t: Term) -> Formula:
         op = t[0]
+        if t in self.objects:
+            return f_not(atom(f"{self.key(t)} is None"))
         if op == "const":
             return ("const", bool(t[1]))
         if op == "not":
